@@ -200,7 +200,7 @@ func run(t interface{ Fatalf(string, ...any) }, c *Case) {
 
 var fields = []string{"a", "b", "c", "col_1", "X9", "zZ_", "count", "a0", "and", "or", "not", "AND", "Or", "NOT", "null", "x_", "select", "where", "group", "by", "in", "true"}
 var values = []string{"\ufffd", "M\ufffdnchen", "x\xc0\xa2y", "\xc0\xa0", "\xc1\x81", "a  b", "a\tb", "", "x", "1", "a b", "é", "日本", "\xff", "a\"b", "\"", "\"\"", "\n", "a\nb", "$1", ";", "(", ")", "&|^", "=", ",", "\x00", "\t", "💩", "''", "\\"}
-var placeholders = []string{"1", "2", "3", "10", "007", "2147483647", "0001", "00000000001", "0002147483647", "000000000000000000000000000000000000007", "65", "256", "1025"}
+var placeholders = []string{"1", "2", "3", "10", "007", "2147483647", "0001", "00000000001", "0002147483647", "000000000000000000000000000000000000007", "65", "256", "1025", "010", "08", "09", "0100", "0777", "012345"}
 
 func quote(v string) string { return `"` + strings.ReplaceAll(v, `"`, `""`) + `"` }
 
@@ -452,6 +452,27 @@ func fixedCases() []*Case {
 		cs = append(cs, &Case{Input: strings.Repeat("(", depth) + `a="1"` + strings.Repeat(")", depth-1), Source: "deep"})
 		cs = append(cs, &Case{Input: strings.Repeat(`a="1" & `, depth) + `b=$1`, Source: "deep"})
 		cs = append(cs, &Case{Input: strings.Repeat(`(a="1" | `, depth) + `b=$1` + strings.Repeat(")", depth), Source: "deep"})
+	}
+	// the input ends inside or right after a run of quotes: `"x""` is an
+	// unterminated string (the doubled quote belongs to the value), `"x"""` is
+	// the value x" - for every run length and a few prefixes
+	for _, pre := range []string{`a = `, `a = "1" & b = `, `^ (a = `} {
+		for _, body := range []string{``, `x`, `x""y`, `""`} {
+			for n := 1; n <= 6; n++ {
+				cs = append(cs, &Case{Input: pre + `"` + body + strings.Repeat(`"`, n), Source: "quote-run-at-end"})
+				cs = append(cs, &Case{Input: pre + `"` + body + strings.Repeat(`"`, n) + " ", Source: "quote-run-at-end"})
+			}
+		}
+	}
+	// runes above U+00FF whose low byte is a field character, white space or an
+	// operator, inside and after field names and between tokens
+	for _, low := range []byte("aA0_z9 \t\n\r&|^()=;,$\"") {
+		for _, hi := range []rune{0x100, 0x4E00, 0x1F600, 0xFF00} {
+			r := string(hi + rune(low))
+			for _, tmpl := range []string{"na%s = \"x\"", "a%s = \"x\"", "a = \"x\" %s& b = \"y\"", "a = \"x\" %s", "a = \"x\" ; c%s", "a = \"x\" ; c, %sd", "%sa = \"x\""} {
+				cs = append(cs, &Case{Input: fmt.Sprintf(tmpl, r), Source: "lookalike-rune"})
+			}
+		}
 	}
 	// a syntax error followed by a long remainder that ends inside or right
 	// after a multi-byte character (whoever quotes "the text near the error"
